@@ -65,11 +65,11 @@ static const double WIDEVAL[3] = { 1e-12, 1.0, 1e12 };
 static const double SCALEVAL[3] = { 1e-8, 1.0, 1e8 };
 
 enum { FAM_FULL, FAM_DENSE, FAM_GRADED, FAM_WIDE, FAM_PERM, FAM_SCALE,
-       FAM_SING, FAM_NEARTRI, FAM_ILLCOND, NFAM };
+       FAM_SING, FAM_NEARTRI, FAM_ILLCOND, FAM_COMMON, NFAM };
 static const char *fam_name[NFAM] = {
     "full-alphabet", "dense", "graded", "wide-range-row", "row-permutation",
     "row-scaling", "exactly-singular", "near-triangular",
-    "ill-conditioned-consistent"
+    "ill-conditioned-consistent", "large-common-part"
 };
 
 enum { P_LU, P_MLD, P_MRD, P_MINV, P_ZTOY, P_YTOZ, P_STOZ, P_ZTOS, P_STOY,
@@ -443,6 +443,8 @@ static long fam_count(int tier, int fam, int n)
 	return (long)kb * n * 2;
     case FAM_ILLCOND:
 	return (n >= 2 && n <= 4) ? 5L * 4 : 0;
+    case FAM_COMMON:
+	return (n >= 2 && n <= 4) ? 4L * 2 : 0;
     case FAM_SING:
 	/* zero row, zero col, dup rows, dup cols, rank n-1 products */
 	return 2L * (2 * n + (n >= 2 ? n * (n - 1) : 0) +
@@ -475,6 +477,25 @@ static void gen_system(int tier, int fam, int n, long idx, sys_t *s)
 	s->d[i] = 1.0;
     }
     switch (fam) {
+    case FAM_COMMON: {
+	/*
+	 * zs * ones + diag(d): all ports tied to a common node that sits on
+	 * a large impedance zs.  One huge singular value, the others
+	 * moderate: ill-conditioned through its large part, with a moderate
+	 * inverse; what a conversion makes of it is moderate too.
+	 */
+	static const double zsv[4] = { 1e5, 1e7, 1e9, 1e11 };
+	int zi = (int)(idx % 4), dv = (int)(idx / 4);
+	for (int i = 0; i < n; ++i)
+	    for (int j = 0; j < n; ++j)
+		m0[i * n + j] = zsv[zi] * (dv ? 1.0 - 0.2 * I : 1.0);
+	for (int i = 0; i < n; ++i)
+	    m0[i * n + i] += 60.0 + 15.0 * i + (dv ? 8.0 : -12.0) * I * (i + 1);
+	s->consistent = 1;
+	snprintf(s->desc, sizeof(s->desc), "%g x ones + diag(60+15i ...): "
+		"large common part, variant %d", zsv[zi], dv);
+	break;
+    }
     case FAM_ILLCOND: {
 	/*
 	 * A = Q1 diag(1, sigma, 1, sigma) Q2 with Q1, Q2 products of plane
